@@ -30,6 +30,21 @@ def run_check(pid, tier, root, quiet=False):
         repo = Repo(root)
         rep = Report(pid, tier, repo)
         pm.run(rep)
+        if tier == 'thorough':
+            if hasattr(pm, 'run_thorough'):
+                pm.run_thorough(rep)
+            if not any(not o.ok for o in rep.obligations if (o.rule, o.key) not in
+                       set((k['rule'], k['key']) for k in __import__('vt.core', fromlist=['x']).load_known().get('known', [])
+                           if k['property'] == pid)):
+                # self-validation of the rules of this property on scratch copies (evidence about the checker;
+                # the verdict below is about /repo only)
+                from . import selftest
+                rc2 = selftest.run(only=pid, root=root, quiet=True)
+                s = dict(selftest.run.last_summary or {})
+                s['mismatches'] = [r for r in (selftest.run.last_results or []) if r['status'] not in ('ok', 'skipped')]
+                rep.extra['self_validation'] = s
+                for r in s['mismatches']:
+                    print('SELFTEST-MISMATCH property=%s variant=%s %s' % (pid, r['id'], r['detail'][:300]))
         seed = int(os.environ.get('VERIF_SEED', '0') or 0)
         return finish(rep, seed=seed, quiet=quiet)
     except AnalysisError as e:
@@ -64,15 +79,7 @@ def main(argv=None):
 
     if args.cmd == 'check':
         pid = args.pid.upper()
-        rc = run_check(pid, args.tier, args.root)
-        if rc == EXIT_OK and args.tier == 'thorough':
-            from . import selftest
-            rc2 = selftest.run(only=pid, root=args.root, quiet=True)
-            if rc2 != 0:
-                print('ANALYSIS-ERROR property=%s checker self-validation failed (the checker, not clastic, is wrong)' % pid)
-                return EXIT_ANALYSIS
-            # re-run so that the evidence file records the thorough tier incl. self-validation summary
-        return rc
+        return run_check(pid, args.tier, args.root)
     if args.cmd == 'all':
         worst = 0
         for pid in ALL:
